@@ -638,6 +638,7 @@ pub fn run_program(ctx: &Arc<Ctx>) {
         for q in 0..prog.nq { if let Some(o) = ctx.obj(q) { o.sync(|_| {}); } let qo = { let g = ctx.qobjs[q].lock().unwrap(); g.clone() }; if let Some(o) = qo { desync::scheduler::sync(&o.queue, || {}); } }
         ctx.wait_all();
     }
+    desync::verif::log("api", "QUIET", 0, String::new());
     let n_at_quiet = ctx.tick();
     // Drop the objects (Desync::drop = sync(free))
     for q in 0..prog.nq { let o = ctx.qobjs[q].lock().unwrap().take(); drop(o); }
